@@ -34,7 +34,7 @@ type Op struct {
 // Stats are per-run counters used for evidence labels.
 type Stats struct {
 	Delivered, Dropped, Dups, Own, Timeouts, Crashes, Restarts int
-	ByzProposals, ByzVotes, Equivocations, Splits             int
+	ByzProposals, ByzVotes, Equivocations, Splits              int
 	MaxRound                                                   int64
 	Locked, Unlocked                                           bool
 	Reordered                                                  bool
